@@ -2,6 +2,7 @@ package rest
 
 import (
 	"net/http"
+	"sync"
 	"time"
 
 	"github.com/gorilla/websocket"
@@ -34,9 +35,10 @@ var upgraderV2 = websocket.Upgrader{
 
 // msgListenerV2 handles messages from the msghub
 type msgListenerV2 struct {
-	hub     *msghub.Hub                    // Global message hub.
-	c       chan *model.JSONMonitorEventV2 // Queue of incoming events.
-	mailbox string                         // Name of mailbox to monitor, "" == all mailboxes.
+	hub       *msghub.Hub                    // Global message hub.
+	c         chan *model.JSONMonitorEventV2 // Queue of incoming events.
+	mailbox   string                         // Name of mailbox to monitor, "" == all mailboxes.
+	closeOnce sync.Once                      // Close may be called by both the reader and the writer.
 }
 
 // newMsgListenerV2 creates a listener and registers it.  Optional mailbox parameter will restrict
@@ -165,13 +167,10 @@ func (ml *msgListenerV2) WSWriter(conn *websocket.Conn) {
 
 // Close removes the listener registration
 func (ml *msgListenerV2) Close() {
-	select {
-	case <-ml.c:
-		// Already closed
-	default:
+	ml.closeOnce.Do(func() {
 		ml.hub.RemoveListener(ml)
 		close(ml.c)
-	}
+	})
 }
 
 // MonitorAllMessagesV2 is a web handler which upgrades the connection to a websocket and notifies
